@@ -10,6 +10,7 @@ package paymentsdb
 
 //@ func (ps PaymentStatus) initializable
 //@   props C16
+//@   bounds-safe
 //@   ensures result == nil <==> ps == StatusFailed
 //@   ensures ps == StatusInitiated ==> result == ErrPaymentExists
 //@   ensures ps == StatusInFlight  ==> result == ErrPaymentInFlight
@@ -18,12 +19,14 @@ package paymentsdb
 //@
 //@ func (ps PaymentStatus) removable
 //@   props C16
+//@   bounds-safe
 //@   ensures result == nil <==> (ps == StatusInitiated || ps == StatusSucceeded || ps == StatusFailed)
 //@   ensures ps == StatusInFlight ==> result == ErrPaymentInFlight
 //@   modifies nothing
 //@
 //@ func (ps PaymentStatus) updatable
 //@   props C16
+//@   bounds-safe
 //@   ensures result == nil <==> (ps == StatusInitiated || ps == StatusInFlight)
 //@   ensures ps == StatusSucceeded ==> result == ErrPaymentAlreadySucceeded
 //@   ensures ps == StatusFailed    ==> result == ErrPaymentAlreadyFailed
@@ -31,6 +34,7 @@ package paymentsdb
 //@
 //@ func decidePaymentStatus
 //@   props C16
+//@   bounds-safe
 //@   let anyInflight = exists(j, 0, len(htlcs), htlcs[j].Failure == nil && htlcs[j].Settle == nil)
 //@   let anySettled  = exists(j, 0, len(htlcs), htlcs[j].Failure == nil && htlcs[j].Settle != nil)
 //@   let anyFailed   = exists(j, 0, len(htlcs), htlcs[j].Failure != nil)
@@ -49,6 +53,7 @@ package paymentsdb
 //@
 //@ func (m *MPPayment) Registrable
 //@   props C16
+//@   bounds-safe
 //@   ensures result == nil <==> (m.Status == StatusInitiated ||
 //@           (m.Status == StatusInFlight && !m.State.HasSettledHTLC && !m.State.PaymentFailed))
 //@   ensures m.Status == StatusSucceeded ==> result == ErrPaymentAlreadySucceeded
@@ -67,12 +72,14 @@ package paymentsdb
 //@
 //@ func verifyAttempt
 //@   props C16
+//@   bounds-safe
 //@   loop * havoc
 //@   site return nil: assert sentAmt + amt <= payment.Info.Value
 //@   nowrap
 //@
 //@ func (m *MPPayment) setState
 //@   props C16
+//@   bounds-safe
 //@   loop * havoc
 //@   site store MPPayment.Status: assert value == retn(decidePaymentStatus, 0) && retn(decidePaymentStatus, 1) == nil &&
 //@        retn(SentAmt, 0) <= m.Info.Value
@@ -84,6 +91,7 @@ package paymentsdb
 //@
 //@ func (p *KVStore) InitPayment$1
 //@   props C16
+//@   bounds-safe
 //@   loop * havoc
 //@   site call Put: assert retn(fetchPaymentStatus, 1) == nil ==> ret(initializable) == nil
 //@   site call createPaymentIndexEntry: assert retn(fetchPaymentStatus, 1) == nil ==> ret(initializable) == nil
@@ -91,6 +99,7 @@ package paymentsdb
 //@
 //@ func (p *KVStore) RegisterAttempt$1
 //@   props C16
+//@   bounds-safe
 //@   loop * havoc
 //@   site call Put: assert ret(Registrable) == nil && ret(verifyAttempt) == nil
 //@   site call Registrable: assert arg(m) == retn(fetchPayment, 0) && retn(fetchPayment, 1) == nil
@@ -98,6 +107,7 @@ package paymentsdb
 //@
 //@ func (p *KVStore) updateHtlcKey$1
 //@   props C16
+//@   bounds-safe
 //@   loop * havoc
 //@   site call Put: assert ret(updatable) == nil && ret(Get, 0) != nil && ret(Get, 1) == nil && ret(Get, 2) == nil &&
 //@        arg(key) == ret(htlcBucketKey, 3) && arg(value) == value
@@ -112,6 +122,7 @@ package paymentsdb
 //@
 //@ func (s *SQLStore) RegisterAttempt$1
 //@   props C16
+//@   bounds-safe
 //@   loop * havoc
 //@   site call InsertHtlcAttempt: assert ret(Registrable) == nil && ret(verifyAttempt) == nil
 //@   site call Registrable: assert arg(m) == retn(fetchPaymentWithCompleteData, 0) && retn(fetchPaymentWithCompleteData, 1) == nil
@@ -119,6 +130,7 @@ package paymentsdb
 //@
 //@ func (s *SQLStore) InitPayment$1
 //@   props C16
+//@   bounds-safe
 //@   loop * havoc
 //@   site call InsertPayment: assert retn(FetchPayment, 1) == nil ==> (ret(initializable) == nil && retn(computePaymentStatusFromDB, 1) == nil)
 //@   site call DeletePayment: assert ret(initializable) == nil && retn(computePaymentStatusFromDB, 1) == nil
@@ -126,33 +138,39 @@ package paymentsdb
 //@
 //@ func (s *SQLStore) SettleAttempt$1
 //@   props C16
+//@   bounds-safe
 //@   loop * havoc
 //@   site call SettleAttempt: assert ret(updatable) == nil
 //@   site call updatable: assert arg(ps) == retn(computePaymentStatusFromDB, 0) && retn(computePaymentStatusFromDB, 1) == nil
 //@
 //@ func (s *SQLStore) FailAttempt$1
 //@   props C16
+//@   bounds-safe
 //@   loop * havoc
 //@   site call FailAttempt: assert ret(updatable) == nil
 //@   site call updatable: assert arg(ps) == retn(computePaymentStatusFromDB, 0) && retn(computePaymentStatusFromDB, 1) == nil
 //@
 //@ func computePaymentStatusFromResolutions
 //@   props C16
+//@   bounds-safe
 //@   loop * havoc
 //@   site call decidePaymentStatus: assert arg(htlcs) == htlcs && (failReason.Valid <==> arg(reason) != nil)
 //@
 //@ func (s *SQLStore) Fail$1
 //@   props C16
+//@   bounds-safe
 //@   loop * havoc
 //@   site call FailPayment: assert arg(arg).FailReason.Valid && arg(arg).FailReason.Int32 == reason
 //@
 //@ func (p *KVStore) Fail$1
 //@   props C16
+//@   bounds-safe
 //@   loop * havoc
 //@   site call Put: assert arg(key) == paymentFailInfoKey && len(arg(value)) == 1 && arg(value)[0] == reason
 //@
 //@ func (m *MPPayment) NeedWaitAttempts
 //@   props C16
+//@   bounds-safe
 //@   requires m != nil && m.State != nil
 //@   let rem = m.State.RemainingAmt
 //@   ensures result1 == nil && rem != 0 ==> (m.Status == StatusInitiated || m.Status == StatusInFlight || m.Status == StatusFailed) &&
@@ -163,6 +181,7 @@ package paymentsdb
 //@
 //@ func (m *MPPayment) AllowMoreAttempts
 //@   props C16
+//@   bounds-safe
 //@   requires m != nil && m.State != nil
 //@   ensures result0 ==> result1 == nil && m.State.RemainingAmt != 0 && m.Status != StatusSucceeded && ret(Registrable) == nil
 //@   ensures result1 == nil && m.State.RemainingAmt != 0 && m.Status != StatusSucceeded ==> (result0 <==> ret(Registrable) == nil)
@@ -171,12 +190,14 @@ package paymentsdb
 //@
 //@ func (m *MPPayment) Terminated
 //@   props C16
+//@   bounds-safe
 //@   ensures result <==> ret(updatable) != nil
 //@   site call updatable: assert arg(0) == m.Status
 //@
 //@ // ---- the stored failure reason reaches the status function unchanged, in both backends
 //@ func buildPaymentFromBatchData
 //@   props C16
+//@   bounds-safe
 //@   loop * havoc
 //@   site call SetState: assert (payment.FailReason.Valid <==> arg(0).FailureReason != nil) &&
 //@        (payment.FailReason.Valid ==> *arg(0).FailureReason == wrap(payment.FailReason.Int32, 8)) &&
@@ -191,12 +212,14 @@ package paymentsdb
 //@
 //@ func fetchPaymentStatus
 //@   props C16
+//@   bounds-safe
 //@   ensures result1 == nil ==> retn(fetchPayment, 1) == nil && result0 == retn(fetchPayment, 0).Status
 //@   site call fetchPayment: assert arg(bucket) == bucket
 //@
 //@ // ---- deletions: only removable payments, and with failedOnly only failed ones, in both backends
 //@ func (p *KVStore) DeletePayments$1$1
 //@   props C16
+//@   bounds-safe
 //@   loop * havoc
 //@   site call removable: assert arg(ps) == retn(fetchPaymentStatus, 0) && retn(fetchPaymentStatus, 1) == nil
 //@   site call fetchFailedHtlcKeys: assert ret(removable) == nil && (failedOnly ==> retn(fetchPaymentStatus, 0) == StatusFailed)
@@ -205,6 +228,7 @@ package paymentsdb
 //@
 //@ func (s *SQLStore) DeletePayments$2$3
 //@   props C16
+//@   bounds-safe
 //@   loop * havoc
 //@   site call computePaymentStatusFromResolutions: assert arg(failReason) == dbPayment.Payment.FailReason
 //@   site call removable: assert arg(ps) == retn(computePaymentStatusFromResolutions, 0) && retn(computePaymentStatusFromResolutions, 1) == nil
@@ -215,6 +239,7 @@ package paymentsdb
 //@
 //@ func (p *KVStore) DeletePayment$1
 //@   props C16
+//@   bounds-safe
 //@   loop * havoc
 //@   site call removable: assert arg(ps) == retn(fetchPaymentStatus, 0) && retn(fetchPaymentStatus, 1) == nil
 //@   site call fetchFailedHtlcKeys: assert ret(removable) == nil
@@ -223,6 +248,7 @@ package paymentsdb
 //@
 //@ func (s *SQLStore) DeletePayment$1
 //@   props C16
+//@   bounds-safe
 //@   loop * havoc
 //@   site call removable: assert arg(ps) == retn(computePaymentStatusFromDB, 0) && retn(computePaymentStatusFromDB, 1) == nil
 //@   site call DeleteFailedAttempts: assert ret(removable) == nil && failedHtlcsOnly
